@@ -56,10 +56,20 @@ def __text(value):
     return value
 
 
+def __element_text(value):
+    """
+    Make the text for a map value or an element of a repeated field.
+
+    These cannot be left unset on the wire, so None (e.g. {'fire_count': None} on a tracepoint registered in code) is
+    sent in its text form, like any other value that is not text.
+    """
+    return __text(str(value) if value is None else value)
+
+
 def __convert_tracepoint(tracepoint: TrPoCo):
     return TracePointConfig(ID=__text(tracepoint.id), path=__text(tracepoint.path), line_number=tracepoint.line_no,
-                            args={__text(k): __text(v) for k, v in tracepoint.args.items()},
-                            watches=[__text(w) for w in tracepoint.watches])
+                            args={__element_text(k): __element_text(v) for k, v in tracepoint.args.items()},
+                            watches=[__element_text(w) for w in tracepoint.watches])
 
 
 def __convert_frame(frame: StFr):
